@@ -2429,6 +2429,8 @@ class GroupBy:
         max_diff: float | int
             The threshold distance for forming a new sub-group
         """
+        # the kernel needs one code per row in one dictionary (chunked keys hold per-chunk codes)
+        self._unify_group_key_chunks()
         return numba_funcs.group_nearby_members(
             group_key=self.group_ikey,
             values=values,
